@@ -155,6 +155,8 @@ def run(chk, fb, tier):
     C14.rule_password_passthrough(chk, fb, "C15.f", ["helper::crypt::encrypt_sheet_protection", "helper::crypt::encrypt_workbook_protection", "helper::crypt::encrypt_revisions_protection"], 3)
     import symmetry
 
+    symmetry.rule_accessor_keeps_state(chk, fb, "C15.h", floor=150)
+    C14.rule_digest_whole_input(chk, fb, "C15.i")
     symmetry.rule_attr_fields(chk, fb, "C15.g", only=[a for a in fb.adts if a.split("::")[-1] in ("SheetProtection", "WorkbookProtection")], floor=20)
     chk.assume("sha2 implements SHA-512; base64 STANDARD engine is RFC 4648 base64")
     chk.note("not decided: the hash value itself; persistence through save/reload is the reader/writer symmetry rule of C04.b/C06.b")
